@@ -15,6 +15,8 @@ FLIP = {'<': '>', '<=': '>=', '>': '<', '>=': '<=', '==': '==', '!=': '!='}
 NEG = {'<': '>=', '<=': '>', '>': '<=', '>=': '<', '==': '!=', '!=': '==',
        'is': 'isnot', 'isnot': 'is', 'true': 'false', 'false': 'true'}
 
+NO_SUMMARY_NAMES = ('new', 'from', 'from_iter', 'build', 'default', 'with_capacity', 'clone')
+
 INT_TYPES = ('u8', 'u16', 'u32', 'u64', 'u128', 'usize', 'i8', 'i16', 'i32', 'i64', 'i128', 'isize')
 
 
@@ -89,6 +91,33 @@ class Facts:
         self._reach = None
         self.call_targets = {}
         self._pred_cache = {}
+
+    def const_value(self, name, ty=''):
+        """Evaluated value of a named (free or associated) constant, looked up by path."""
+        if not hasattr(self, '_const_idx'):
+            idx = {}
+            for k, v in self.consts.items():
+                val = v.get('val')
+                if isinstance(val, str):
+                    num = int(val)
+                    if v.get('ty') in ('f64', 'f32'):
+                        import struct
+                        num = struct.unpack('<d', struct.pack('<Q', num))[0] if v['ty'] == 'f64' else struct.unpack('<f', struct.pack('<I', num))[0]
+                    idx[k] = num
+                    idx[strip_generics(k)] = num
+            self._const_idx = idx
+        idx = self._const_idx
+        n = name.strip()
+        for cand in (n, strip_generics(n), n.replace('const ', '')):
+            if cand in idx:
+                return idx[cand]
+        # `<Type as Trait>::NAME` / `Type::<G>::NAME`: match by the last two path segments when unique
+        tail = strip_generics(n).split('::')[-2:]
+        if len(tail) == 2:
+            hits = {v for k, v in idx.items() if k.split('::')[-2:] == tail}
+            if len(hits) == 1:
+                return next(iter(hits))
+        return None
 
     # ---- library scope
     def lib_fns(self, include_derived=False, include_closures=True):
@@ -190,6 +219,36 @@ class Facts:
             self._reach = seen
         return self._reach
 
+    def with_closures(self, f):
+        """f together with the closures it creates (transitively): scanning rules look at all of them."""
+        out = [f]
+        seen = {f['path']}
+        i = 0
+        while i < len(out):
+            g = out[i]
+            i += 1
+            for b in g['blocks']:
+                for s in b['s']:
+                    rv = s.get('rv')
+                    if rv and rv['k'] == 'agg' and 'closure' in rv['kind']:
+                        c = self.fns.get(rv['kind']['closure'])
+                        if c is not None and c['path'] not in seen:
+                            seen.add(c['path'])
+                            out.append(c)
+        return out
+
+    def closure_parent(self, f):
+        """The non-closure function a closure (transitively) belongs to."""
+        cur = f
+        for _ in range(5):
+            if cur['kind'] != 'Closure':
+                return cur
+            sites = self.closure_sites.get(cur['path'], [])
+            if not sites:
+                return cur
+            cur = self.fns.get(sites[0][0], cur)
+        return cur
+
     def const_params(self, f):
         return [g['name'] for g in f.get('generics', []) if g['kind'] == 'const' and g['ty'] == 'bool']
 
@@ -206,7 +265,33 @@ class Facts:
                 names.add(t['d']['c'])
         return sorted(names)
 
-    def specs(self, f):
+    def deep_used_const_params(self, f, depth=2):
+        """Boolean const generics of f that f itself or a crate callee (safe helpers, two levels) branches on."""
+        own = set(self.const_params(f))
+        used = set(self.used_const_params(f))
+        frontier = [f]
+        seen = {f['path']}
+        for _ in range(depth):
+            nxt = []
+            for g in frontier:
+                for q in self.callees_of(g):
+                    if q in seen:
+                        continue
+                    seen.add(q)
+                    h = self.fns[q]
+                    if h['unsafe']:
+                        continue
+                    used |= set(self.used_const_params(h)) & own
+                    nxt.append(h)
+            frontier = nxt
+        return sorted(used)
+
+    def specs(self, f, deep=False):
+        if deep:
+            cps = self.deep_used_const_params(f)
+            for vals in itertools.product([False, True], repeat=len(cps)):
+                yield dict(zip(cps, vals))
+            return
         cps = self.used_const_params(f)
         for vals in itertools.product([False, True], repeat=len(cps)):
             yield dict(zip(cps, vals))
@@ -434,6 +519,9 @@ class Fn:
                 return ('const', int(o['val']))
             if o['c'] in self.spec:
                 return ('const', 1 if self.spec[o['c']] else 0)
+            v = self.facts.const_value(o['c'], o.get('ty', ''))
+            if v is not None:
+                return ('const', v)
             return ('cexpr', o['c'])
         if 'fn' in o:
             return ('fn', o['fn']['path'])
@@ -498,7 +586,7 @@ class Fn:
         args = tuple(self.operand_term(a, depth + 1) for a in t['args'])
         if fn is None:
             return ('callind', args)
-        return inline_call(self.facts, fn, args)
+        return inline_call(self.facts, fn, args, self.spec)
 
 
 def strip_ref(t):
@@ -514,7 +602,7 @@ def short_callee(fn):
     return strip_generics(fn['path'])
 
 
-def inline_call(facts, fn, args):
+def inline_call(facts, fn, args, spec=None):
     name = fn['name']
     tr = fn['trait']
     args = tuple(args)
@@ -543,26 +631,35 @@ def inline_call(facts, fn, args):
         return strip_ref(args[0])
     cands = facts.resolve(fn)
     if len(cands) == 1:
-        summ = summary(facts, cands[0])
+        summ = summary(facts, cands[0], spec)
         if summ is not None:
             return subst(summ, cands[0], args)
-        if not tr and cands[0]['locals'][0] == 'bool' and not cands[0]['unsafe']:
+        if not tr and (cands[0]['locals'][0] == 'bool' or cands[0]['locals'][0].startswith('std::option::Option')) and not cands[0]['unsafe']:
             facts.call_targets[short_callee(fn)] = cands[0]
     return ('call', short_callee(fn), tuple(strip_ref(a) for a in args))
 
 
-def summary(facts, f):
-    """Return-value term of a transparent (straight-line, safe) function, else None."""
-    key = f['path']
+def summary(facts, f, spec=None):
+    """Return-value term of a transparent (straight-line once const generics are fixed, safe, closure-free)
+    function, else None."""
+    fspec = {k: v for k, v in (spec or {}).items() if k in facts.const_params(f)}
+    key = (f['path'], tuple(sorted(fspec.items())))
     cache = facts._summary_cache
     if key in cache:
         return cache[key]
     cache[key] = None
-    if f['unsafe'] or len(f['blocks']) > 8 or f['kind'] == 'Closure':
+    if f['unsafe'] or len(f['blocks']) > 14 or f['kind'] == 'Closure':
         return None
-    if any(b['t']['k'] == 'switch' for b in f['blocks']):
+    if f['name'] in NO_SUMMARY_NAMES:
         return None
-    F = Fn(facts, f)
+    if any(s.get('rv', {}).get('k') == 'agg' and 'closure' in s['rv']['kind'] for b in f['blocks'] for s in b['s']):
+        return None
+    F = Fn(facts, f, fspec)
+    F.dom()
+    if any(F.blocks[bi]['t']['k'] == 'switch' and bi not in F.const_switch for bi in F.reach):
+        return None
+    if len(F.reach) > 8:
+        return None
     t = norm(F.local_term(0))
     if has_unknown(t) or term_size(t) > 40:
         return None
@@ -625,7 +722,7 @@ def norm(t):
         return t[1]
     if k == 'field' and t[2] == '0' and isinstance(t[1], tuple) and t[1] and t[1][0] in ('bin', 'const'):
         return t[1]
-    if k == 'bin' and t[2][:1] == ('const',) and t[3][:1] == ('const',) and len(t[2]) == 2 and len(t[3]) == 2:
+    if k == 'bin' and t[2][:1] == ('const',) and t[3][:1] == ('const',) and len(t[2]) == 2 and len(t[3]) == 2 and isinstance(t[2][1], int) and isinstance(t[3][1], int):
         a, b = t[2][1], t[3][1]
         try:
             v = {'Add': lambda: a + b, 'Sub': lambda: a - b if a >= b else None, 'Mul': lambda: a * b,
@@ -636,12 +733,23 @@ def norm(t):
             v = None
         if v is not None:
             return ('const', v)
-    if k == 'bin' and t[1] == 'Div' and t[3][0] == 'const' and t[3][1] > 0 and (t[3][1] & (t[3][1] - 1)) == 0:
+    if k == 'bin' and t[1] == 'Div' and t[3][0] == 'const' and isinstance(t[3][1], int) and t[3][1] > 0 and (t[3][1] & (t[3][1] - 1)) == 0:
         return ('bin', 'Shr', t[2], ('const', t[3][1].bit_length() - 1))
-    if k == 'bin' and t[1] == 'Mul' and t[3][0] == 'const' and t[3][1] > 0 and (t[3][1] & (t[3][1] - 1)) == 0:
+    if k == 'bin' and t[1] == 'Mul' and t[3][0] == 'const' and isinstance(t[3][1], int) and t[3][1] > 0 and (t[3][1] & (t[3][1] - 1)) == 0:
         return ('bin', 'Shl', t[2], ('const', t[3][1].bit_length() - 1))
-    if k == 'bin' and t[1] == 'Mul' and t[2][0] == 'const' and t[2][1] > 0 and (t[2][1] & (t[2][1] - 1)) == 0:
+    if k == 'bin' and t[1] == 'Mul' and t[2][0] == 'const' and isinstance(t[2][1], int) and t[2][1] > 0 and (t[2][1] & (t[2][1] - 1)) == 0:
         return ('bin', 'Shl', t[3], ('const', t[2][1].bit_length() - 1))
+    if k == 'cast' and t[2][:1] == ('const',) and t[1] in ('f64', 'f32') and isinstance(t[2][1], (int, float)):
+        return ('const', float(t[2][1]))
+    if k == 'bin' and t[2][:1] == ('const',) and t[3][:1] == ('const',) and (isinstance(t[2][1], float) or isinstance(t[3][1], float)):
+        a, b = float(t[2][1]), float(t[3][1])
+        v = {'Add': a + b, 'Sub': a - b, 'Mul': a * b}.get(t[1])
+        if t[1] == 'Div' and b != 0:
+            v = a / b
+        if v is not None:
+            return ('const', v)
+    if k == 'bin' and t[1] == 'Rem' and t[3][0] == 'const' and isinstance(t[3][1], int) and t[3][1] > 0 and (t[3][1] & (t[3][1] - 1)) == 0:
+        return norm(('bin', 'BitAnd', t[2], ('const', t[3][1] - 1)))
     if k == 'bin' and t[1] in ('Add', 'Mul', 'BitAnd', 'BitOr', 'BitXor') and repr(t[2]) > repr(t[3]):
         return ('bin', t[1], t[3], t[2])
     if k == 'bin' and t[1] in CMP:
@@ -697,9 +805,14 @@ def show(t):
 # ---------------------------------------------------------------- atoms
 
 def canon_atom(op, a, b):
-    """Orient comparisons: only <, <=, ==, != survive; (op, lhs, rhs)."""
+    """Orient comparisons: only <, <=, ==, != survive; (op, lhs, rhs).  Integer constants: x < c is x <= c-1,
+    c < x is c+1 <= x."""
     if op in ('>', '>='):
         op, a, b = FLIP[op], b, a
+    if op == '<' and isinstance(b, tuple) and b[:1] == ('const',) and isinstance(b[1], int) and b[1] > 0:
+        op, b = '<=', ('const', b[1] - 1)
+    elif op == '<' and isinstance(a, tuple) and a[:1] == ('const',) and isinstance(a[1], int):
+        op, a = '<=', ('const', a[1] + 1)
     if op in ('==', '!=') and repr(a) > repr(b):
         a, b = b, a
     return (op, a, b)
@@ -763,7 +876,7 @@ def fmt_atom(a):
     return '%s %s %s' % (show(x), op, show(y))
 
 
-def path_atoms(F, bb, include_debug=False, _expand=True):
+def path_atoms(F, bb, include_debug=False, _expand=True, _depth=0):
     """Conjunction of branch conditions that hold whenever control reaches block `bb`:
     for every dominating switch, the condition of the unique out-edge that dominates `bb`."""
     dom = F.dom()
@@ -781,6 +894,10 @@ def path_atoms(F, bb, include_debug=False, _expand=True):
             continue
         targets = [(int(v), to) for v, to in t['arms']]
         els = t['else']
+        threaded = _thread_bool(F, s, t, bb, _depth)
+        if threaded is not None:
+            out.extend(threaded)
+            continue
         dterm = norm(F.operand_term(t['d']))
         is_bool = len(targets) == 1 and targets[0][0] == 0 and _is_bool_switch(F, t)
         for v, to in targets:
@@ -799,18 +916,20 @@ def path_atoms(F, bb, include_debug=False, _expand=True):
                 else:
                     out.append(('isnot', dterm, vals))
     if _expand:
-        out = expand_predicates(F.facts, out)
+        out = expand_predicates(F.facts, out, 0, F.spec)
+    out = [a for a in out if not (a[0] == '<=' and a[1] == ('const', 0))]
     return out
 
 
-def pred_summary(facts, f):
+def pred_summary(facts, f, spec=None):
     """Conjunction of atoms (over f's parameters) under which a crate-local bool function returns true,
     when its true-returns form a single conjunction; else None (the call stays uninterpreted)."""
-    key = f['path']
+    fspec = {k: v for k, v in (spec or {}).items() if k in facts.const_params(f)}
+    key = (f['path'], tuple(sorted(fspec.items())))
     if key in facts._pred_cache:
         return facts._pred_cache[key]
     facts._pred_cache[key] = None
-    F = Fn(facts, f)
+    F = Fn(facts, f, fspec)
     F.dom()
     contrib = []
     for bi, b in enumerate(F.blocks):
@@ -834,20 +953,145 @@ def pred_summary(facts, f):
     return facts._pred_cache[key]
 
 
-def expand_predicates(facts, atoms, depth=0):
+def expand_predicates(facts, atoms, depth=0, spec=None):
     out = []
     for a in atoms:
+        if a[0] == 'is' and depth < 2 and isinstance(a[1], tuple) and a[1][:1] == ('discr',):
+            inner = a[1][1]
+            want = None
+            if isinstance(inner, tuple) and inner[:1] == ('call',) and inner[1].split('::')[-1] == 'branch' and inner[2] and a[2] == 0:
+                inner, want = inner[2][0], 'some'
+            elif a[2] == 1:
+                want = 'some'
+            if want and isinstance(inner, tuple) and inner[:1] == ('call',):
+                tgt = facts.call_targets.get(inner[1])
+                if tgt is not None and tgt['locals'][0].startswith('std::option::Option'):
+                    ps = opt_summary(facts, tgt, spec)
+                    if ps is not None:
+                        args = inner[2]
+                        sub = [map_atom(x, lambda t_: subst(t_, tgt, args)) for x in ps]
+                        out.extend(expand_predicates(facts, sub, depth + 1, spec))
+                        out.append(a)
+                        continue
         if a[0] == 'true' and isinstance(a[1], tuple) and a[1] and a[1][0] == 'call' and depth < 2:
             tgt = facts.call_targets.get(a[1][1])
             if tgt is not None:
-                ps = pred_summary(facts, tgt)
+                ps = pred_summary(facts, tgt, spec)
                 if ps is not None:
                     args = a[1][2]
                     sub = [map_atom(x, lambda t_: subst(t_, tgt, args)) for x in ps]
-                    out.extend(expand_predicates(facts, sub, depth + 1))
+                    out.extend(expand_predicates(facts, sub, depth + 1, spec))
                     continue
         out.append(a)
     return out
+
+
+def _thread_bool(F, s, t, bb, depth):
+    """A boolean that was materialised through control flow (`let bad = a || b || c; if bad {..}`): the switch reads a
+    local with several definitions.  On the arm that dominates `bb`, if exactly one definition is compatible with the
+    arm's value, control came through that definition: its own path condition holds, and so does its (non-constant)
+    value with the arm's polarity."""
+    d = t['d']
+    if 'p' not in d or d['p']['proj'] or depth > 3:
+        return None
+    l = d['p']['l']
+    if F.locals[l] != 'bool':
+        return None
+    defs = [x for x in F.defs.get(l, []) if x[0] in F.reach]
+    # look through plain copies (`_13 = copy _4`)
+    for _ in range(3):
+        if len(defs) == 1 and defs[0][1] == 'assign' and defs[0][2]['k'] == 'use' and 'p' in defs[0][2]['a'] and not defs[0][2]['a']['p']['proj']:
+            l = defs[0][2]['a']['p']['l']
+            defs = [x for x in F.defs.get(l, []) if x[0] in F.reach]
+        else:
+            break
+    if len(defs) < 2 or len(t['arms']) != 1 or int(t['arms'][0][0]) != 0:
+        return None
+    out = []
+    for val, to in ((0, t['arms'][0][1]), (1, t['else'])):
+        if to == t['else'] and val == 0:
+            continue
+        if not F.edge_dominates(s, to, bb):
+            continue
+        compat = []
+        for dd in defs:
+            if dd[1] == 'assign' and dd[2]['k'] == 'use' and 'c' in dd[2]['a'] and dd[2]['a'].get('val') is not None:
+                if int(dd[2]['a']['val']) == val:
+                    compat.append((dd, True))
+            else:
+                compat.append((dd, False))
+        if len(compat) != 1:
+            return None if not out else out
+        dd, is_const = compat[0]
+        if dd[0] == s:
+            return None
+        out.extend(path_atoms(F, dd[0], _expand=False, _depth=depth + 1))
+        if not is_const:
+            tm = norm(F.rvalue_term(dd[2])) if dd[1] == 'assign' else norm(F.call_term(dd[2]))
+            at = one_atom(term_atoms(tm))
+            out.extend(flatten_conj([at if val == 1 else neg_atom(at)]))
+    return out if out else None
+
+
+def value_true_atoms(F, operand):
+    """Atoms implied by a boolean operand being true (receiver of `bool::then`): a single definition gives its term;
+    a boolean materialised through control flow (`a && b`) is threaded through its only compatible definition."""
+    if 'p' in operand and not operand['p']['proj']:
+        l = operand['p']['l']
+        defs = [x for x in F.defs.get(l, []) if x[0] in F.reach]
+        for _ in range(3):
+            if len(defs) == 1 and defs[0][1] == 'assign' and defs[0][2]['k'] == 'use' and 'p' in defs[0][2]['a'] and not defs[0][2]['a']['p']['proj']:
+                defs = [x for x in F.defs.get(defs[0][2]['a']['p']['l'], []) if x[0] in F.reach]
+            else:
+                break
+        if len(defs) >= 2:
+            compat = []
+            for dd in defs:
+                if dd[1] == 'assign' and dd[2]['k'] == 'use' and 'c' in dd[2]['a'] and dd[2]['a'].get('val') is not None:
+                    if int(dd[2]['a']['val']) == 1:
+                        compat.append((dd, True))
+                else:
+                    compat.append((dd, False))
+            if len(compat) == 1:
+                dd, is_const = compat[0]
+                out = list(path_atoms(F, dd[0]))
+                if not is_const:
+                    tm = norm(F.rvalue_term(dd[2])) if dd[1] == 'assign' else norm(F.call_term(dd[2]))
+                    out.extend(flatten_conj([one_atom(term_atoms(tm))]))
+                return expand_predicates(F.facts, out, 0, F.spec)
+            return []
+    t = norm(F.operand_term(operand))
+    return expand_predicates(F.facts, flatten_conj([one_atom(term_atoms(t))]), 0, F.spec)
+
+
+def opt_summary(facts, f, spec=None):
+    """Conjunction of atoms under which a crate-local Option-returning helper returns Some (single Some-return)."""
+    fspec = {k: v for k, v in (spec or {}).items() if k in facts.const_params(f)}
+    key = ('opt', f['path'], tuple(sorted(fspec.items())))
+    if key in facts._pred_cache:
+        return facts._pred_cache[key]
+    facts._pred_cache[key] = None
+    F = Fn(facts, f, fspec)
+    F.dom()
+    contrib = []
+    for bi, b in enumerate(F.blocks):
+        if bi not in F.reach:
+            continue
+        for st in b['s']:
+            if 'lhs' in st and st['lhs']['l'] == 0 and not st['lhs']['proj']:
+                rv = st['rv']
+                if rv['k'] == 'agg' and rv['kind'].get('adt') == 'std::option::Option':
+                    if rv['kind']['vi'] == 1:
+                        contrib.append(list(path_atoms(F, bi, _expand=False)))
+                else:
+                    contrib.append(None)
+        t = b['t']
+        if t['k'] == 'call' and t['dest']['l'] == 0 and not t['dest']['proj'] and 'fn' in t['f']:
+            if t['f']['fn']['trait'] != 'std::ops::FromResidual':
+                contrib.append(None)
+    if len(contrib) == 1 and contrib[0] is not None and not any(has_unknown(a[1]) or (isinstance(a[2], tuple) and has_unknown(a[2])) for a in contrib[0]):
+        facts._pred_cache[key] = contrib[0]
+    return facts._pred_cache[key]
 
 
 def _is_bool_switch(F, t):
@@ -901,8 +1145,7 @@ def site_condition(facts, F, bb, _depth=0):
                                 if fn2['path'].startswith('core::bool::') or fn2['path'].startswith('std::bool::') \
                                         or fn2['path'] in ('bool::then',):
                                     if fn2['name'] == 'then' and ai == 1:
-                                        recv = norm(CF.operand_term(t2['args'][0]))
-                                        atoms += flatten_conj([one_atom(term_atoms(recv))])
+                                        atoms += value_true_atoms(CF, t2['args'][0])
     return atoms
 
 
@@ -954,3 +1197,30 @@ def fn_key(f):
     if base:
         return '%s::%s' % (base, f['name'])
     return strip_generics(f['path'])
+
+
+def inlined_sites(facts, f, spec=None, depth=2, _pre=None, _map=None, _seen=None):
+    """Virtual inlining of safe crate-local helpers: yields (G, bb, atoms, to_root) for every reachable block of f and
+    of the helpers it calls (up to `depth` levels).  `atoms` are the path conditions of the block conjoined with those
+    of the call chain, and `to_root(term)` rewrites a term of G into the parameters of f.  Rules written against one
+    function keep working when part of its body is moved into `fn flush_dense(..)`-style helpers."""
+    spec = spec or {}
+    fspec = {k: v for k, v in spec.items() if k in facts.const_params(f)}
+    F = facts.fn(f, fspec)
+    F.dom()
+    pre = _pre or []
+    to_root = _map or (lambda t: t)
+    seen = _seen or {f['path']}
+    for bi in sorted(F.reach):
+        atoms = pre + [map_atom(a, to_root) for a in path_atoms(F, bi)]
+        yield F, bi, atoms, to_root
+        t = F.blocks[bi]['t']
+        if depth > 0 and t['k'] == 'call' and 'fn' in t['f']:
+            cands = facts.resolve(t['f']['fn'])
+            if len(cands) == 1 and not cands[0]['unsafe'] and cands[0]['path'] not in seen and cands[0]['kind'] != 'Closure' \
+                    and not cands[0]['exported'] and summary(facts, cands[0], spec) is None:
+                g = cands[0]
+                args = [norm(to_root(F.operand_term(a))) for a in t['args']]
+                sub = (lambda g_, args_: (lambda tm: norm(subst(tm, g_, args_))))(g, args)
+                for item in inlined_sites(facts, g, spec, depth - 1, atoms, sub, seen | {g['path']}):
+                    yield item
